@@ -395,6 +395,8 @@ pub struct World {
     last_touch: BTreeMap<u64, u64>,
     /// the application may reuse the id of a request in flight (focus c19dup)
     dup_ids: bool,
+    /// the local record as the handler holds it (the application may update it while the node runs)
+    local_enr_shared: Option<Arc<RwLock<Enr>>>,
     /// random (unscripted) requests of peers may be sealed under junk keys
     junk_keys: bool,
     /// the next request of a peer is sealed under this junk key (0 = all zero, 1 = all ones, 2 = one bit off)
@@ -500,6 +502,7 @@ impl World {
             ttl_ms: 86_400_000,
             last_touch: BTreeMap::new(),
             dup_ids: false,
+            local_enr_shared: None,
             junk_keys: false,
             force_junk: None,
             answer_src: None,
@@ -750,8 +753,10 @@ impl Runner {
         if let Some(t) = session_timeout {
             w.ttl_ms = t.as_millis() as u64;
         }
+        let enr_arc = Arc::new(RwLock::new(w.local_enr.clone()));
+        w.local_enr_shared = Some(enr_arc.clone());
         let vh = VirtualHandler::spawn(
-            Arc::new(RwLock::new(w.local_enr.clone())),
+            enr_arc,
             Arc::new(RwLock::new(CombinedKey::secp256k1_from_bytes(&mut w.local_key.encode()).unwrap())),
             config,
             vec![w.local_addr],
@@ -2360,7 +2365,19 @@ async fn run_case(seed: u64, idx: u64, focus: &str, thorough: bool, fixes: &str)
             Move::NetWhoAreYou { req } => r.net_whoareyou(&mut rng, req).await,
             Move::NetReplay { idx, other_src } => r.net_replay(&mut rng, idx, other_src).await,
             Move::NetMutate { idx, how, pos } => r.net_mutate(idx, how, pos).await,
-            Move::Advance { steps } => r.advance(steps).await,
+            Move::Advance { steps } => {
+                // focus c19dup (monitor-only): the application updates the local record now and then (a
+                // handshake packet in flight that carried the old record is retransmitted as it is)
+                if r.w.dup_ids && rng.chance(1, 3) {
+                    if let Some(a) = r.w.local_enr_shared.clone() {
+                        let mut e = a.write();
+                        let q = e.seq();
+                        let _ = e.set_seq(q + 1, &r.w.local_key);
+                        r.w.hist.add("local_record:sequence_number_raised");
+                    }
+                }
+                r.advance(steps).await
+            }
         }
         // a case ends at the first failure of the property in focus; failures of other properties
         // are recorded (and reported by their own checks) but do not cut the history short
